@@ -3,23 +3,23 @@
 // run: ./check C19 --replay replays/C19/tensor.c19_oob_d2.rs
 /// Test generated for harness `tensor::c19_oob_d2` 
 ///
-/// Check for `assertion`: "assertion failed: idx[i] < self.dims[i]"
+/// Check for `assertion`: "VERIF-REACHED: out-of-range index accepted"
 
 #[test]
-fn kani_concrete_playback_c19_oob_d2_16337006568036731717() {
+fn kani_concrete_playback_c19_oob_d2_18431832545054918546() {
     let concrete_vals: Vec<Vec<u8>> = vec![
         // 1ul
         vec![1, 0, 0, 0, 0, 0, 0, 0],
-        // 4ul
-        vec![4, 0, 0, 0, 0, 0, 0, 0],
+        // 1ul
+        vec![1, 0, 0, 0, 0, 0, 0, 0],
+        // 0ul
+        vec![0, 0, 0, 0, 0, 0, 0, 0],
+        // 0ul
+        vec![0, 0, 0, 0, 0, 0, 0, 0],
         // 0ul
         vec![0, 0, 0, 0, 0, 0, 0, 0],
         // 3ul
         vec![3, 0, 0, 0, 0, 0, 0, 0],
-        // 1ul
-        vec![1, 0, 0, 0, 0, 0, 0, 0],
-        // 6ul
-        vec![6, 0, 0, 0, 0, 0, 0, 0],
         // 1
         vec![1],
     ];
